@@ -1678,6 +1678,54 @@ def popen_ops(case, rp):
     return dict(confirmed=False, detail='%d executor operation sequences hold natively' % n)
 
 
+@builder('agent/executing/popen.py:Popen._launch_task')
+def popen_launch(case, rp):
+    """the real Popen._launch_task with the process spawn replaced by a fake
+    process, then the watcher's collection step on whatever was queued: a spawned
+    task is released and handed on exactly once when it ended or was canceled"""
+    import queue, tempfile, shutil
+    import radical.pilot.agent.executing.popen as mod
+    n = 0
+    for pending in (False, True):
+        for code in (None, 0, 3):
+            n += 1
+            p = mk_popen(rp)
+            sbox = tempfile.mkdtemp(prefix='verif_launch_')
+            p._watch_queue = queue.Queue()
+            p.handle_timeout = lambda t: None
+            p._session = AttrDict(rcfg=AttrDict(new_session_per_task=False))
+            try: type(p).session.fget(p)
+            except Exception: pass
+            t = {'uid': 't1', 'task_sandbox_path': sbox, 'launch_path': '/bin/true', 'launcher_name': 'FORK', 'description': {}}
+            p._tasks = {'t1': t}
+            if pending: p._cancel_list = ['t1']
+            saved = mod.sp.Popen
+            mod.sp.Popen = lambda *a, **k: _FakeProc(code)
+            probs = []
+            try:
+                p._launch_task(t)
+                watch = []
+                while not p._watch_queue.empty(): watch.append(p._watch_queue.get())
+                if watch: p._check_running(watch)
+            except Exception as e:
+                probs.append('raised %r' % e)
+            finally:
+                mod.sp.Popen = saved
+                shutil.rmtree(sbox, ignore_errors=True)
+            k = released(p, 't1')
+            handed = [a for a in p.adv if a[0] == 't1' and a[1] == 'AGENT_STAGING_OUTPUT_PENDING']
+            ended = code is not None or pending
+            if ended and (k != 1 or len(handed) != 1):
+                probs.append('cancel pending: %s, process exit code %s: released %d times, handed on %d times, still registered: %s, queued for the watcher: %d'
+                             % (pending, code, k, len(handed), 't1' in p._tasks, len(watch)))
+            if not ended and (k or handed or len(watch) != 1):
+                probs.append('running task without cancel request: released %d, handed on %d, queued for the watcher %d' % (k, len(handed), len(watch)))
+            if probs:
+                return dict(confirmed=True, detail='; '.join(probs[:3]), input=dict(cancel_pending=pending, exit_code=code),
+                            found_by='bounded native launch scenarios (%d tried)' % n)
+    return dict(confirmed=False, detail='%d launch scenarios hold natively' % n)
+
+
 @builder('raptor/master.py:Master._result_cb')
 def master_result_cb(case, rp):
     from radical.pilot.raptor.master import Master
